@@ -198,6 +198,15 @@ Definition validate_legacy_approx (t : target) : verdict :=
   | _ => Reject RLikType
   end.
 
+(* the same with the univariate check of fixes/C10_legacy_approx_dim.diff (the harness probes which one the tree has) *)
+Definition validate_legacy_approx_dim (t : target) : verdict :=
+  match t_lik t with
+  | KLMRF => match t_prior t with
+             | KGamma => if negb (Nat.eqb (t_prior_dim t) 1) then Reject RNotUnivariate else Accept s_empty
+             | KOtherPrior => Reject RPriorType end
+  | _ => Reject RLikType
+  end.
+
 (* ------------------------------------------------------------------------------------------ *)
 (* 4. the Gamma the samplers draw from (one transcription, abstract carrier)                   *)
 (* ------------------------------------------------------------------------------------------ *)
@@ -312,11 +321,12 @@ Definition verdict_eqb (a b : verdict) : bool :=
   | _, _ => false
   end.
 
-Inductive iface := IExp | IApprox | ILegacy | ILegacyApprox.
+Inductive iface := IExp | IApprox | ILegacy | ILegacyApprox | ILegacyApproxDim.
 Definition validate (i : iface) (t : target) : verdict :=
   match i with
   | IExp => validate_exp t | IApprox => validate_approx t
   | ILegacy => validate_legacy t | ILegacyApprox => validate_legacy_approx t
+  | ILegacyApproxDim => validate_legacy_approx_dim t
   end.
 
 Definition check_validate (i : iface) (t : target) (obs : verdict) : bool := verdict_eqb (validate i t) obs.
